@@ -832,6 +832,13 @@ class Engine:
     def ex_Expr(self, stmt, st):
         if isinstance(stmt.value, ast.Constant):
             return [(st, FLOW_NEXT)]
+        if isinstance(stmt.value, ast.Yield) and getattr(self, "contextmanager_mode", False):
+            # @contextmanager: the with-body runs at the yield; it either completes (the
+            # generator is resumed) or raises (the exception is thrown into the generator here)
+            s2 = st.fork()
+            st.trace.append("body-ok")
+            s2.trace.append("body-raises")
+            return [(st, FLOW_NEXT), (s2, ("raise", ExcVal("BodyException", ())))]
         return self.flows_from(self.ev(stmt.value, st), lambda s, v: [(s, FLOW_NEXT)])
 
     def ex_Pass(self, stmt, st):
